@@ -20,7 +20,11 @@ def main():
         print("refusing: /repo has uncommitted changes"); return 2
     r = sh(f"git -C /repo apply --include='src/*' {patch}")
     if r.returncode != 0:
-        print("patch does not apply:", r.stdout); return 2
+        # recorded against an earlier commit of /repo (only the guarded hook lines have changed since): three-way merge
+        r = sh(f"git -C /repo apply --3way --include='src/*' {patch}")
+        if r.returncode != 0 or "with conflicts" in r.stdout:
+            sh("git -C /repo reset -q --hard HEAD")
+            print("patch does not apply:", r.stdout); return 2
     res = {"patch": patch, "tier": tier, "checks": {}}
     try:
         if run_tests:
@@ -37,7 +41,7 @@ def main():
             if r.returncode == 2:
                 print(r.stdout[-1500:])
     finally:
-        sh("git -C /repo checkout -- . && git -C /repo clean -fdq -- src")
+        sh("git -C /repo reset -q --hard HEAD && git -C /repo clean -fdq -- src")
         print("restored:", sh("git -C /repo status --porcelain --untracked-files=no").stdout.strip() or "clean")
     print(json.dumps(res))
     return 0
